@@ -391,6 +391,12 @@ pub(crate) fn burn_tag(input: &[u8], inposp: &mut usize) -> Result<(), Error> {
 
 pub(crate) fn burn_key_and_value(input: &[u8], inposp: &mut usize) -> Result<(), Error> {
     verify_char(input, b'"', inposp)?;
+    burn_rest_of_key_and_value(input, inposp)
+}
+
+// from the character after the start quote of the key
+// ending on the character following the value
+pub(crate) fn burn_rest_of_key_and_value(input: &[u8], inposp: &mut usize) -> Result<(), Error> {
     burn_string(input, inposp)?;
     eat_colon_with_whitespace(input, inposp)?;
     burn_value(input, inposp)?;
@@ -451,7 +457,7 @@ pub(crate) fn burn_value(input: &[u8], inposp: &mut usize) -> Result<(), Error> 
         b'n' => burn_null(input, inposp)?,
         b'-' => burn_number(input, inposp)?,
         _ => {
-            if b"123456789".contains(&input[*inposp]) {
+            if b"0123456789".contains(&input[*inposp]) {
                 burn_number(input, inposp)?
             } else {
                 return Err(
